@@ -5,7 +5,12 @@
 (* exhaustive one (8-bit addresses, CIDRs of every length, six ClientIDs,  *)
 (* names of up to six labels, up to 11 list entries and 4 patterns):       *)
 (*                                                                         *)
-(*   {"k":"set", allowed, disallowed, hosts}     one POST /control/access/set *)
+(*   {"k":"set", allowed, disallowed, hosts, reported}                     *)
+(*                                     one POST /control/access/set        *)
+(*   {"k":"load", allowed, disallowed, hosts, reported}                    *)
+(*                                     one reconfiguration of the live     *)
+(*                                     server from a configuration that    *)
+(*                                     carries the lists (LoadConfig)      *)
 (*   {"k":"req", areq, lvl, out [, d]}           one DNS request           *)
 (*                                                                         *)
 (* Every line must be a step of Access.tla: a "set" line is SetLists       *)
@@ -27,9 +32,18 @@ Trace == ndJsonDeserialize("trace.ndjson")
 VARIABLES l, cfg, obs, bad
 tvars == <<l, cfg, obs, bad>>
 
+\* The configuration in force after the step: the lists as given, except that
+\* a loaded configuration with an empty blocked-hosts list means the defaults.
 CfgOf(ln) == [allowed    |-> ToSet(ln.allowed),
               disallowed |-> ToSet(ln.disallowed),
-              hosts      |-> ToSet(ln.hosts)]
+              hosts      |-> IF ln.k = "load" THEN EffectiveHosts(ToSet(ln.hosts))
+                             ELSE ToSet(ln.hosts)]
+
+\* What GET /control/access/list reported right after the step, abstracted by
+\* the harness (strings it did not post itself are parsed as patterns).
+ReportedOf(ln) == [allowed    |-> ToSet(ln.reported.allowed),
+                   disallowed |-> ToSet(ln.reported.disallowed),
+                   hosts      |-> ToSet(ln.reported.hosts)]
 
 ReqOf(ln) == [addr |-> ln.areq.addr, form |-> ln.areq.form, id |-> ln.areq.id,
               idcase |-> ln.areq.idcase, name |-> ln.areq.name,
@@ -44,7 +58,9 @@ ReqOk(ln) ==
 
 \* The logged step is a SetLists step of Access.tla (the API accepted it, so
 \* the lists must have been disjoint).
-SetOk(ln) == ToSet(ln.allowed) \cap ToSet(ln.disallowed) = {}
+\* and the API reports exactly the configuration that is now in force.
+SetOk(ln) == /\ ToSet(ln.allowed) \cap ToSet(ln.disallowed) = {}
+             /\ ReportedOf(ln) = CfgOf(ln)
 
 Init == /\ l = 1
         /\ cfg = [allowed |-> {}, disallowed |-> {}, hosts |-> {}]
@@ -54,7 +70,7 @@ Init == /\ l = 1
 Next ==
     /\ l <= Len(Trace)
     /\ LET ln == Trace[l] IN
-         IF ln.k = "set"
+         IF ln.k \in {"set", "load"}
          THEN /\ cfg' = CfgOf(ln)
               /\ bad' = IF SetOk(ln) THEN bad ELSE bad \cup {l}
               /\ obs' = obs
